@@ -309,7 +309,7 @@ pub fn generate_c08(tier: &str, seed: u64, out: &mut Out) {
         }
     }
     out.req("deb.lprint", &["-".to_string()]);
-    let n = if thorough { 300_000 } else { 20_000 };
+    let n = if thorough { 1_500_000 } else { 20_000 };
     for i in 0..n {
         let d = random_content(&mut rng, i % 4 == 0);
         out.req("deb.lprint", &[enc_doc(&d)]);
@@ -349,7 +349,7 @@ pub fn generate_c06(tier: &str, seed: u64, out: &mut Out) {
     }
     let thorough = tier == "thorough";
     let mut rng = Rng::new(seed ^ 0xC06);
-    let n = if thorough { 300_000 } else { 20_000 };
+    let n = if thorough { 1_500_000 } else { 20_000 };
     for _ in 0..n {
         let ls = docspec::random_lines(&mut rng, true);
         let fnl = if rng.chance(75) { "1" } else { "0" };
